@@ -6,11 +6,11 @@ props = [json.loads(l) for l in open(os.path.join(V, "properties.jsonl"))]
 
 EXPL = "exploration"
 checks = {
- "C01": (EXPL, "4 C01", "stateful property-based testing (proptest byte-choice programs + histories) against a from-scratch evaluator",
+ "C01": (EXPL, "4 C01", "stateful property-based testing (proptest byte-choice programs + histories, swarm configurations, shape templates; thorough tier adds a coverage-guided libFuzzer stage over the same decoder) against a from-scratch evaluator",
    "Generated programs over every listed combinator, with arbitrary interleavings of writes, node creation, observer churn and stabilise, are compared after every stabilise with a from-scratch evaluation that shares nothing with the engine's caching. Exploration, not proof: bounded program size, millions of cases per run; sensitivity shown by seeded breakages.",
    "trusted: the from-scratch evaluator and the decoder; bounded sizes (DESIGN 3.2)"),
  "C02": (EXPL, "4 C02", "stateful PBT with an invocation-log monitor (each node function at most once per stabilise, arguments equal end-of-round input values)",
-   "Every user closure is instrumented; per stabilise the log must show at most one invocation per node (one pass per fold) and arguments equal to the model's end-of-round values of the inputs, over generated programs whose link order varies (templates force both registration orders).",
+   "Every user closure is instrumented; per stabilise the log must show at most one invocation per node (one pass per fold) and arguments equal to the model's end-of-round values of the inputs, and no closure of a bind's previous generation may run in the stabilise in which the bind's input changed, over generated programs whose link order and sibling heights vary (templates force both registration orders and both write orders).",
    "trusted: reference model of values/validity; recompute orders reached are those the generator's link orders induce"),
  "C03": (EXPL, "4 C03", "stateful PBT with generation-tagged closures and observers/subscribers on bind-created nodes",
    "Closures are tagged with the bind generation that created them; a run of a stale generation in or after the round in which the bind's input changed, a value from an invalid node, or a wrong Invalidated sequence is a violation. Claims restricted to binds needed throughout the round (DESIGN 3.5).",
@@ -25,7 +25,7 @@ checks = {
    "For every node and round the model derives whether its function must, may or must not run from the cutoff-judged change status of its inputs, and checks the log; cutoff closures log their (old,new) arguments.",
    "trusted: reference model; uncertain statuses are resolved from the log instead of guessed"),
  "C07": (EXPL, "4 C07", "stateful PBT reading every observer handle after every action, from node functions and from handlers",
-   "All handles are read after each action and compared with the value recorded at the end of the previous stabilise; reads inside node functions must fail with CurrentlyStabilising; reads inside handlers must show end-of-round values.",
+   "All handles are read after each action and compared with the value recorded at the end of the previous stabilise; reads inside node functions must fail with CurrentlyStabilising; reads inside handlers must show end-of-round values; observers created inside handlers must read NeverStabilised; at the end of every stabilise all observers must equal the from-scratch evaluation on the variable contents at the call (also with writes issued from node functions in that round).",
    "trusted: reference model"),
  "C08": (EXPL, "4 C08", "stateful PBT of the five write operations outside stabilise, from writer node functions and from handlers, against a program-order model",
    "get()/replace() results are compared immediately; writes logged inside stabilise are composed in log order by the model and compared after the round; is_stable() must be false after a deferred write to a needed variable; the next round must propagate the composed value (C01 oracle).",
@@ -38,7 +38,7 @@ checks = {
    "trusted: the audit port in /repo/src/verif_audit.rs (add-only, cfg-guarded)"),
  "C12": (EXPL, "4 C12", "stateful PBT with weak-reference and canary accounting: drawn drop orders of all handles and the state interleaved with stabilises, against a strong-reachability model",
    "Every closure owns a clone of a canary Rc and every node is tracked by a WeakIncr; after each stabilise all nodes that the model's strong-reachability (handles, observers, closures, bind right-hand sides) cannot reach must have strong_count 0; after the drawn final drop order nothing may remain; no drop may panic (worker abort = violation) and the remaining graph's values must stay correct. Both build configurations.",
-   "reachability is over-approximated (sound); vars of vars and expert nodes are not in this generator"),
+   "reachability is over-approximated (sound); vars of vars, vectors of vars, vars of incrs, self-binds and expert nodes come from a second generator with end-state and one-stabilise leak oracles only"),
  "C13": ("fault_enumeration", "4 C13", "fault enumeration: a panic injected at every individual user-function invocation of generated programs, then observer reads / re-stabilise / drops checked",
    "Each generated program is re-executed once per user-function invocation it performs, with a panic injected there and caught by the caller; afterwards reads must fail (or, for a handler fault, equal the fully propagated model values), a further stabilise must refuse without invoking anything, and dropping everything must not panic or abort (worker processes detect aborts). Both build configurations.",
    "faults are injected only in functions the harness supplies (node functions, bind closures, boxed/fn cutoffs, handlers); bounded program sizes"),
